@@ -163,7 +163,7 @@ func Rec(spec Spec) *Recorder {
 		return r
 	}
 	r := &Recorder{spec: spec, start: time.Now(), distinct: map[uint64]struct{}{}, labels: map[string]int64{},
-		excluded: map[string]int64{}, extra: map[string]any{}, maxSamples: 5}
+		excluded: map[string]int64{}, extra: map[string]any{}, maxSamples: 6}
 	recs[spec.ID] = r
 	return r
 }
@@ -208,13 +208,22 @@ func (r *Recorder) record(c any, o *Obs) {
 			r.distinct[h] = struct{}{}
 			// keep samples spread over the run: first 2, then reservoir-ish by power of two
 			n := len(r.distinct)
-			if len(r.samples) < r.maxSamples && (n <= 2 || n&(n-1) == 0) {
+			if len(r.samples) < r.maxSamples && isSampleIndex(n) {
 				r.samples = append(r.samples, s)
 			}
 		}
 	} else if len(r.trivSamples) < 1 {
 		r.trivSamples = append(r.trivSamples, s)
 	}
+}
+
+// isSampleIndex spreads the samples over the run: the 1st, 2nd, 5th, 20th, 100th, 1000th, ... distinct case.
+func isSampleIndex(n int) bool {
+	switch n {
+	case 1, 2, 5, 20, 100, 1000, 10000, 100000:
+		return true
+	}
+	return false
 }
 
 // Excluded counts a case/class that the generator avoided because of a listed known finding.
